@@ -120,6 +120,16 @@ def spec_call(engine, st, name, node):
         a = engine.deref(st, engine.eval(st, node.args[0]))
         b = engine.deref(st, engine.eval(st, node.args[1]))
         return Ty.mk_bool(engine.keyterm(a) == engine.keyterm(b))
+    if name == "at_entry":
+        snap = getattr(st, "loop_entry", None)
+        if snap is None:
+            raise Unsupported("at_entry() outside a loop specification")
+        tmp = st.clone()
+        tmp.vars, tmp.heap = dict(snap[0]), Heap(snap[1])
+        v = engine.eval(tmp, node.args[0])
+        if isinstance(v, Ref):
+            return tmp.heap[v.id]
+        return v
     if name == "prev":
         snap = getattr(st, "iter_old", None)
         if snap is None:
